@@ -3,6 +3,8 @@ package transport
 import (
 	"encoding/json"
 	"fmt"
+	"strconv"
+	"unicode/utf8"
 
 	"github.com/aptpod/iscp-go/errors"
 	"github.com/aptpod/iscp-go/transport/compress"
@@ -102,6 +104,22 @@ func (p *NegotiationParams) UnmarshalKeyValues(keyvals map[string]string) error 
 	// 文字列のbool値を適切に変換するための中間マップ
 	converted := make(map[string]interface{})
 	for k, v := range keyvals {
+		if k == "" {
+			return fmt.Errorf("empty negotiation key")
+		}
+		if !utf8.ValidString(k) || !utf8.ValidString(v) {
+			return fmt.Errorf("negotiation key or value is not valid UTF-8: %q", k)
+		}
+		switch k {
+		case "enc", "comp", "tid", "tgid", "reconnect":
+		case "clevel", "cwinbits", "tgcount", "tgidx":
+			if _, err := strconv.Atoi(v); err != nil {
+				return fmt.Errorf("invalid numeric value for %s: %q", k, v)
+			}
+		default:
+			// unknown key: ignored (encoding/json would match it case-insensitively against the known names)
+			continue
+		}
 		if k == "reconnect" {
 			switch v {
 			case "true":
